@@ -93,6 +93,11 @@ func (s c05Step) String() string {
 	return fmt.Sprintf("%s(%q)", s.op, s.p1)
 }
 
+func vfPick2(r *vfRand, l [][2]string) (string, string) {
+	x := l[r.Intn(len(l))]
+	return x[0], x[1]
+}
+
 var errC05NotCompared = errors.New("vf: outcome not comparable")
 
 func c05Category(err error) string {
@@ -201,6 +206,11 @@ func c05Gen(r *vfRand, n int, unpriv, relative bool) []c05Step {
 			s.verbatimTarget = r.Bool()
 			s.p1 = vfPick(r, []string{"a", "d", "d/x", "nope", "b"})
 			s.p2 = vfPick(r, []string{"l", "m", "d/y", "c"})
+			if r.Intn(5) == 0 {
+				// now and then a link that is (part of) a cycle: l -> l, or l -> m and m -> l
+				s.verbatimTarget = true
+				s.p1, s.p2 = vfPick2(r, [][2]string{{"l", "l"}, {"m", "l"}, {"l", "m"}, {"y", "d/y"}})
+			}
 		case "Glob":
 			// (also patterns whose only special character is the escape, in the last element or in the directory part)
 			s.p1 = vfPick(r, []string{"*", "d/*", "?", "[ab]", "*/*", "d/e/*", "nope/*", "d/[xy]", "a*", "\\a", "d/\\x", "\\d/x", "\\d/*", "d/e/\\z", "[a-c]", "d/?", "l/*", "*/x"})
